@@ -26,7 +26,7 @@ m = {
 }
 for p in props:
     pid = p["id"]
-    if pid in PROPS:
+    if pid in PROPS and PROPS[pid].get("ready", True):
         s = PROPS[pid]
         m["checks"].append({
             "property_id": pid,
